@@ -211,6 +211,7 @@ def triage(ctx, prop, lang, proto, text, cls, what, replay):
     app = [fd for fd in check.applicable(ctx.findings_db, prop, lang, feats) if check.symptom_matches(fd, cls, what)]
     if app:
         ctx.finding_excluded[app[0]['id']] += 1
+        ctx.known_finding(app[0]['id'], app[0]['what'])
         return False
     ctx.violation((prop, lang, cls, proto.tag), '%s/%s %s: %s' % (lang, proto.tag, cls, what), replay)
     return True
